@@ -622,6 +622,17 @@ class Program:
         try:
             return self.fold(m, m.constants[name])
         except NotConst as exc:
+            # a table derived from other constants (comprehension, sorted(...), ...): interpret the initialiser
+            from .interp import Interp, unlift
+
+            I = self.__dict__.setdefault("_const_interp", None) or Interp(self)
+            self.__dict__["_const_interp"] = I
+            v = I.module_const_value(m, name)
+            if v is not None:
+                try:
+                    return unlift(v)
+                except ValueError:
+                    pass
             raise AnalysisError(f"constant {key} does not fold: {exc}")
 
     def enum_of(self, ref: EnumRef) -> EnumInfo:
